@@ -6,6 +6,7 @@ import (
 	"fmt"
 	"go/token"
 	"go/types"
+	"os"
 	"strings"
 
 	"golang.org/x/tools/go/ssa"
@@ -91,7 +92,7 @@ func (ex *Exec) existedAtEntry(r Term) Term { return And(Ge(r, I(0)), Lt(r, ex.a
 func (ex *Exec) assumeFrame(st *State, keys []string) {
 	for _, key := range keys {
 		srt := ex.heapSort[key]
-		if srt == "" || strings.HasPrefix(key, "visited<") || strings.HasPrefix(key, "ghost<") {
+		if srt == "" || strings.HasPrefix(key, "visited<") || (strings.HasPrefix(key, "ghost<") && !ex.ghostInFrame(key)) {
 			continue
 		}
 		e0, ok := ex.heap0[key]
@@ -111,8 +112,15 @@ func (ex *Exec) frameCheck(st *State, where, kind, pos string) {
 		srt := ex.heapSort[key]
 		cur := st.heap[key]
 		e0, ok := ex.heap0[key]
-		if !ok || srt == "" || cur.S == e0.S || strings.HasPrefix(key, "visited<") || strings.HasPrefix(key, "ghost<") {
+		if !ok || srt == "" || cur.S == e0.S || strings.HasPrefix(key, "visited<") {
 			continue
+		}
+		if strings.HasPrefix(key, "ghost<") {
+			// ghost state: checked at function exit only, and only against an explicit modifies clause
+			// (a postcondition about a ghost change that `modifies` does not name is contradictory at call sites)
+			if !ex.ghostInFrame(key) {
+				continue
+			}
 		}
 		lvl := keyLevel(key, srt)
 		var goal Term
@@ -143,6 +151,22 @@ func (ex *Exec) frameCheck(st *State, where, kind, pos string) {
 			o.Kind = "frame"
 		}
 	}
+}
+
+// ghostInFrame: ghost per-object state is part of the frame of a function with an explicit modifies clause
+// (checked at exit and across loops like any heap location), except the environment ghosts.
+func (ex *Exec) ghostInFrame(key string) bool {
+	return ex.top != nil && ex.top.contract != nil && ex.top.contract.HasMod && !ex.ghostFrameOff(key)
+}
+
+// ghostFrameOff: ghost state that models the environment rather than an effect of the function (the clock, lock
+// ownership, what other goroutines did) is not part of a function's frame.
+func (ex *Exec) ghostFrameOff(key string) bool {
+	switch key {
+	case "ghost<clock>", "ghost<held>", "ghost<closed>", "ghost<done>":
+		return true
+	}
+	return os.Getenv("GOVC_GHOST_FRAME") == "0"
 }
 
 // noteHeapWrite records, for the discovery pass, which loops write which heap keys.
